@@ -25,6 +25,7 @@ import (
 	"time"
 
 	"github.com/samaritan-proxy/samaritan/logger"
+	"github.com/samaritan-proxy/samaritan/utils/verifpoint"
 )
 
 // Instance represents a sam instance.
@@ -130,6 +131,7 @@ func (r *Restarter) handleChild(conn *net.UnixConn) {
 		default:
 		}
 
+		verifpoint.HitArg("hotrestart.child.before-read", conn)
 		msg, err := readMessage(conn)
 		switch err {
 		case nil:
